@@ -70,6 +70,9 @@ pub enum Stream {
 		/// but still needs its listener
 		#[serde(default)]
 		pass_through: bool,
+		/// the spatial track's probe effect adds a signal of its own to every frame
+		#[serde(default)]
+		emit: bool,
 	},
 	/// a spatial track (listener B, emitter e2) inside - optionally through a plain track -
 	/// a spatial track (listener A, emitter e1); the listeners may be dropped
@@ -191,6 +194,7 @@ fn gen_case(seed: u64, index: u64, tier: Tier) -> Case {
 			map_in: *rng.pick(&[(0.0, 30.0), (1.0, 10.0), (20.0, 2.0)]),
 			relink: if rng.chance(0.4) { Some((rng.below(4), *rng.pick(&[0.0, 2.0 * unit, 5.0 * unit]))) } else { None },
 			pass_through: rng.chance(0.3),
+			emit: rng.chance(0.4),
 		}
 	};
 	Case { seed, stream }
@@ -422,6 +426,9 @@ struct DistProbe {
 	calls: u64,
 	/// seconds since the link was made
 	since: Option<f64>,
+	/// added to every frame: an effect with a voice of its own (like the tail of a delay or a
+	/// reverb), which a spatial track without a listener must not let through either
+	emit: f32,
 }
 /// Logged instead of a parameter value while the link's own tween is still running.
 const TWEENING: f64 = -12345.0;
@@ -455,12 +462,18 @@ impl Effect for DistProbe {
 			(Some(_), None) => false,
 		};
 		self.log.lock().unwrap().push((info.listener_distance(), if settled { self.param.value() } else { TWEENING }));
+		if self.emit != 0.0 {
+			for f in input.iter_mut() {
+				*f += Frame::new(self.emit, self.emit);
+			}
+		}
 	}
 }
 struct DistProbeBuilder {
 	map_in: (f64, f64),
 	/// link the parameter later, through `Parameter::set` with a tween (as a handle setter does)
 	relink: Option<(u64, f64)>,
+	emit: f32,
 }
 impl EffectBuilder for DistProbeBuilder {
 	type Handle = Arc<Mutex<Vec<(Option<f32>, f64)>>>;
@@ -483,6 +496,7 @@ impl EffectBuilder for DistProbeBuilder {
 				relink: self.relink.map(|(at, dur)| (at, dur, self.map_in)),
 				calls: 0,
 				since: None,
+				emit: self.emit,
 			}),
 			log,
 		)
@@ -517,7 +531,7 @@ impl Lerp {
 	}
 }
 
-fn run_history(ops: &[HOp], ibs: usize, nested: bool, map_in: (f64, f64), relink: Option<(u64, f64)>, pass_through: bool, res: &mut CaseResult, trace: &mut Hasher64, beh: &mut Hasher64) {
+fn run_history(ops: &[HOp], ibs: usize, nested: bool, map_in: (f64, f64), relink: Option<(u64, f64)>, pass_through: bool, emit: bool, res: &mut CaseResult, trace: &mut Hasher64, beh: &mut Hasher64) {
 	let Some(mut m) = manager(ibs) else { return };
 	let device = m.backend_mut().device.clone();
 	let sr = 8000.0f64;
@@ -560,11 +574,11 @@ fn run_history(ops: &[HOp], ibs: usize, nested: bool, map_in: (f64, f64), relink
 				if pass_through {
 					b = b.attenuation_function(None);
 				}
-				logs.push(b.add_effect(DistProbeBuilder { map_in, relink }));
+				logs.push(b.add_effect(DistProbeBuilder { map_in, relink, emit: if emit { 0.05 } else { 0.0 } }));
 				let Ok(mut t) = m.add_spatial_sub_track(&l, e_model.value, b) else { continue };
 				if nested {
 					let mut cbld = TrackBuilder::new();
-					logs.push(cbld.add_effect(DistProbeBuilder { map_in, relink: None }));
+					logs.push(cbld.add_effect(DistProbeBuilder { map_in, relink: None, emit: 0.0 }));
 					if let Ok(mut c) = t.add_sub_track(cbld) {
 						sound = c.play(dc(0.5, 0.5)).ok();
 						child = Some(c);
@@ -747,10 +761,10 @@ fn run_nested(a: [f32; 3], b: [f32; 3], e1: [f32; 3], e2: [f32; 3], drop_a: Opti
 		let la = m.add_listener(Vec3::from(a), Quat::IDENTITY).unwrap();
 		let lb = m.add_listener(Vec3::from(b), Quat::IDENTITY).unwrap();
 		let mut ob = SpatialTrackBuilder::new().distances((1.0, 60.0)).spatialization_strength(0.0);
-		let outer_log = ob.add_effect(DistProbeBuilder { map_in, relink: None });
+		let outer_log = ob.add_effect(DistProbeBuilder { map_in, relink: None, emit: 0.0 });
 		let mut outer = m.add_spatial_sub_track(&la, Vec3::from(e1), ob).unwrap();
 		let mut ib = SpatialTrackBuilder::new().distances((1.0, 60.0)).spatialization_strength(0.0);
-		let inner_log = ib.add_effect(DistProbeBuilder { map_in, relink: None });
+		let inner_log = ib.add_effect(DistProbeBuilder { map_in, relink: None, emit: 0.0 });
 		let (mid, mut inner) = if mid_plain {
 			let mut mid = outer.add_sub_track(TrackBuilder::new()).unwrap();
 			let inner = mid.add_spatial_sub_track(&lb, Vec3::from(e2), ib).unwrap();
@@ -759,7 +773,7 @@ fn run_nested(a: [f32; 3], b: [f32; 3], e1: [f32; 3], e2: [f32; 3], drop_a: Opti
 			(None, outer.add_spatial_sub_track(&lb, Vec3::from(e2), ib).unwrap())
 		};
 		let mut gb = TrackBuilder::new();
-		let grand_log = gb.add_effect(DistProbeBuilder { map_in, relink: None });
+		let grand_log = gb.add_effect(DistProbeBuilder { map_in, relink: None, emit: 0.0 });
 		let mut grand = inner.add_sub_track(gb).unwrap();
 		grand.play(dc(0.5, 0.5)).unwrap();
 		(m, la, lb, outer, mid, inner, grand, outer_log, inner_log, grand_log)
@@ -930,8 +944,8 @@ pub fn run_case(case: &Case) -> CaseResult {
 			beh.u64(*relation as u64);
 			beh.u64(trace.finish());
 		}
-		Stream::History { ops, ibs, nested, map_in, relink, pass_through } => {
-			run_history(ops, *ibs, *nested, *map_in, *relink, *pass_through, &mut res, &mut trace, &mut beh);
+		Stream::History { ops, ibs, nested, map_in, relink, pass_through, emit } => {
+			run_history(ops, *ibs, *nested, *map_in, *relink, *pass_through, *emit, &mut res, &mut trace, &mut beh);
 			beh.u64(*nested as u64);
 		}
 	}
@@ -947,7 +961,7 @@ impl Check for C15 {
 		CheckInfo {
 			id: "C15",
 			level: "exploration",
-			rule: "five streams. sched (1/24): a gameplay task adds a listener, a spatial track bound to it (optionally nested) and a sound while an audio task runs callbacks under seeded random schedules - the track must be audible afterwards, and the first frame ever heard of the sound (a ramp) is its first frame: a track that ran without its listener consumes the sound in silence; turn (1/12): the listener turns between two yaw angles given by quaternions of either sign (q / -q), instantly or over a few internal buffers, with the emitter on its right: every frame favours the right ear; nested (1/6): a spatial track (listener B) inside - directly or through a plain track - a spatial track (listener A) with a plain track below it, each with a FromListenerDistance probe, either listener dropped at a seeded callback; history (1/6): seeded history over {add listener (the first one gets a spatial track, optionally with a nested non-spatial child, each with a FromListenerDistance probe parameter and a DC sound), drop the listener, tween the listener position, tween the emitter position, stop the sound with a fade (it must reach Stopped with or without a listener), callback} at a seeded internal buffer size, 30% on a pass-through track (no attenuation function, spatialization strength 0: silent without a listener like any other spatial track) - simulated on the device with a per-chunk reference of both positions; geometry (2/3): generated listener pose, emitter position, distance range (proper, equal, inverted, zero-based), attenuation curve, strength, edge classes (listener and emitter coincident; emitter exactly on one of the listener's ears; the same orientation given as a quaternion that is not of unit length), rendered through the manager and related to a second rendering (farther along the same ray, mirrored, rigidly moved, stereo input, the same scene with a linear roll-off) - plain input generation evaluated as cross-run invariants; non-trivial = every case renders; distinct = hash of the outputs / of the per-callback (listener present, chunks) sequence",
+			rule: "five streams. sched (1/24): a gameplay task adds a listener, a spatial track bound to it (optionally nested) and a sound while an audio task runs callbacks under seeded random schedules - the track must be audible afterwards, and the first frame ever heard of the sound (a ramp) is its first frame: a track that ran without its listener consumes the sound in silence; turn (1/12): the listener turns between two yaw angles given by quaternions of either sign (q / -q), instantly or over a few internal buffers, with the emitter on its right: every frame favours the right ear; nested (1/6): a spatial track (listener B) inside - directly or through a plain track - a spatial track (listener A) with a plain track below it, each with a FromListenerDistance probe, either listener dropped at a seeded callback; history (1/6): seeded history over {add listener (the first one gets a spatial track, optionally with a nested non-spatial child, each with a FromListenerDistance probe parameter and a DC sound), drop the listener, tween the listener position, tween the emitter position, stop the sound with a fade (it must reach Stopped with or without a listener), callback} at a seeded internal buffer size, 30% on a pass-through track (no attenuation function, spatialization strength 0: silent without a listener like any other spatial track), 40% with a probe effect that adds a signal of its own (which must not get out without a listener either) - simulated on the device with a per-chunk reference of both positions; geometry (2/3): generated listener pose, emitter position, distance range (proper, equal, inverted, zero-based), attenuation curve, strength, edge classes (listener and emitter coincident; emitter exactly on one of the listener's ears; the same orientation given as a quaternion that is not of unit length), rendered through the manager and related to a second rendering (farther along the same ray, mirrored, rigidly moved, stereo input, the same scene with a linear roll-off) - plain input generation evaluated as cross-run invariants; non-trivial = every case renders; distinct = hash of the outputs / of the per-callback (listener present, chunks) sequence",
 			assumptions: vec![
 				"the geometric relations (monotonicity, ear gains, mirror, rigid motion, stereo pass-through) are input-generation checks, not schedule- or fault-dependent; they are included because the same harness renders them, and are stated as such".into(),
 				"tolerances: 1e-4 on gains, 2e-3 / 3e-3 for mirrored / moved scenes (f32 quaternion arithmetic), rigid-motion comparison skipped within 1e-3 of a distance limit".into(),
@@ -975,11 +989,11 @@ impl Check for C15 {
 	fn shrink(&self, case: &Json) -> Vec<Json> {
 		let c: Case = serde_json::from_value(case.clone()).unwrap();
 		let mut out = vec![];
-		if let Stream::History { ops, ibs, nested, map_in, relink, pass_through } = &c.stream {
+		if let Stream::History { ops, ibs, nested, map_in, relink, pass_through, emit } = &c.stream {
 			let wrapped = serde_json::json!({ "ops": ops });
 			for v in shrink_ops_array(&wrapped, "ops") {
 				let ops: Vec<HOp> = serde_json::from_value(v["ops"].clone()).unwrap();
-				out.push(serde_json::to_value(Case { stream: Stream::History { ops, ibs: *ibs, nested: *nested, map_in: *map_in, relink: *relink, pass_through: *pass_through }, ..c.clone() }).unwrap());
+				out.push(serde_json::to_value(Case { stream: Stream::History { ops, ibs: *ibs, nested: *nested, map_in: *map_in, relink: *relink, pass_through: *pass_through, emit: *emit }, ..c.clone() }).unwrap());
 			}
 		}
 		out
